@@ -1238,7 +1238,18 @@ func TestC21(t *testing.T) {
 			checkCase(i, c, "e2e", func(pkg string, inc, exc []string, hidden bool) globResult {
 				if first { // the main call is answered by the builtin; the key-finding probes run in-process
 					first = false
-					return globResult{names: o.Srcs}
+					// .plzconfig at the repository root is written by this harness, not part of the generated
+					// tree: a hidden=True glob in the root package legitimately returns it.
+					names := o.Srcs
+					if c.Pkg == "" {
+						names = nil
+						for _, n := range o.Srcs {
+							if n != ".plzconfig" {
+								names = append(names, n)
+							}
+						}
+					}
+					return globResult{names: names}
 				}
 				return realGlob(pkg, inc, exc, hidden)
 			})
